@@ -440,3 +440,49 @@ func positionRules(p *core.Program, r *core.Report, rule string) {
 	}
 	r.Floor(rule, 20)
 }
+
+// sourceUnmodifiedRule: positions are positions in the text the caller passed. On the way
+// Compile(input) → Parse(input) → NewSource(input) → Lex(source) the text is handed on as the
+// parameter itself, never as a transformed copy (a trimmed input shifts every line and column).
+func sourceUnmodifiedRule(p *core.Program, r *core.Report, rule string) {
+	type hop struct{ rel, fn, calleeRel, callee string }
+	hops := []hop{{"", "Compile", "parser", "Parse"}, {"", "Eval", "parser", "Parse"}, {"parser", "Parse", "file", "NewSource"}}
+	for _, h := range hops {
+		fd := p.FuncDecl(h.rel, "", h.fn)
+		key := core.FuncName(h.rel, &ast.FuncDecl{Name: ast.NewIdent(h.fn)}) + "/source text reaches the lexer unmodified"
+		if fd == nil || fd.Body == nil || fd.Type.Params == nil || len(fd.Type.Params.List) == 0 {
+			r.Unk(rule, key, "", "function not found")
+			continue
+		}
+		info := p.Pkg(h.rel).TypesInfo
+		param := info.Defs[fd.Type.Params.List[0].Names[0]]
+		target := p.Pkg(h.calleeRel).Types.Scope().Lookup(h.callee)
+		n, ok := 0, true
+		arg := ""
+		reassigned := false
+		ast.Inspect(fd.Body, func(nd ast.Node) bool {
+			switch x := nd.(type) {
+			case *ast.AssignStmt:
+				for _, l := range x.Lhs {
+					if id, isID := l.(*ast.Ident); isID && objOf(info, id) == param {
+						reassigned = true
+					}
+				}
+			case *ast.CallExpr:
+				if fn := eng.CalleeOf(info, x); fn != nil && types.Object(fn) == target && len(x.Args) >= 1 {
+					n++
+					id, isID := eng.Unparen(x.Args[0]).(*ast.Ident)
+					if !isID || objOf(info, id) != param {
+						ok, arg = false, eng.ExprStr(x.Args[0])
+					}
+				}
+			}
+			return true
+		})
+		if n == 0 {
+			r.Unk(rule, key, p.Pos(fd.Pos()), "no call of "+h.callee)
+			continue
+		}
+		r.Check(ok && !reassigned, rule, key, p.Pos(fd.Pos()), h.callee+"(input) with the parameter itself", h.fn+" hands `"+arg+"` (or a reassigned parameter) to "+h.callee+" instead of the text it was given: every token, node and error position is then relative to the transformed text, not to what the caller wrote")
+	}
+}
